@@ -570,6 +570,12 @@ impl VersionSet {
                             ManifestWriteErrorKind::ManifestErrorCleanup(remove_file_error.into()),
                         ));
                     }
+                } else {
+                    // The record may or may not have reached the manifest file (completely or in
+                    // part), so nothing can be appended after it anymore. The next change starts
+                    // a new manifest file with a snapshot of the state that is in memory.
+                    version_set.maybe_manifest_file = None;
+                    version_set.manifest_file_number = version_set.get_new_file_number();
                 }
 
                 return Err(error);
